@@ -3,7 +3,7 @@
 //   L  a literal becomes a call to a fresh function returning it
 //   B  a pure subexpression is bound to a fresh const just before the statement using it
 //   C  a never-reassigned `let` becomes `const`
-//   W  a suffix of a block is wrapped in `if true { }`
+//   W  a run of statements of a block (not holding a value return) is wrapped in `if true { }`
 // Base and variant must be treated the same (accepted/rejected, except the documented
 // "fixed array index must be a compile-time constant" rejection) and print the same.
 package c09
@@ -177,15 +177,35 @@ func variants(p *fl.Program, quick bool) []variant {
 		out = append(out, variant{"C", i, q, note})
 	}
 	// ---- W
-	type wsite struct{ list, at int }
+	// The wrapped range runs from statement `at` up to (not including) the first statement
+	// that returns a value: `if true { return v; }` does not return on all paths by the
+	// language's (purely syntactic) rule, so a range holding such a return is not an applicable
+	// site. A range that stops before the end of the list must not hold a declaration either
+	// (the statements after it would lose the name).
+	type wsite struct{ list, at, end int }
 	var ws []wsite
 	li := 0
 	fl.Walk(p, fl.Visitor{Block: func(list *[]fl.Stmt) {
 		for at := range *list {
-			if quick && at != 0 && at != len(*list)-1 {
+			end := at
+			for end < len(*list) && !returnsValue((*list)[end]) {
+				end++
+			}
+			if end < len(*list) {
+				for k := at; k < end; k++ {
+					if _, isLet := (*list)[k].(*fl.Let); isLet {
+						end = k
+						break
+					}
+				}
+			}
+			if end == at {
 				continue
 			}
-			ws = append(ws, wsite{li, at})
+			if quick && at != 0 && end != len(*list) && !(end < len(*list) && returnsValue((*list)[end]) && (at == end-1)) {
+				continue
+			}
+			ws = append(ws, wsite{li, at, end})
 		}
 		li++
 	}})
@@ -194,14 +214,57 @@ func variants(p *fl.Program, quick bool) []variant {
 		li := 0
 		fl.Walk(q, fl.Visitor{Block: func(list *[]fl.Stmt) {
 			if li == w.list {
-				suffix := append([]fl.Stmt{}, (*list)[w.at:]...)
-				*list = append(append([]fl.Stmt{}, (*list)[:w.at]...), &fl.If{Cond: &fl.BoolLit{V: true}, Then: suffix})
+				mid := append([]fl.Stmt{}, (*list)[w.at:w.end]...)
+				rest := append([]fl.Stmt{}, (*list)[w.end:]...)
+				*list = append(append(append([]fl.Stmt{}, (*list)[:w.at]...), &fl.If{Cond: &fl.BoolLit{V: true}, Then: mid}), rest...)
 			}
 			li++
 		}})
-		out = append(out, variant{"W", i, q, fmt.Sprintf("list %d from statement %d", w.list, w.at)})
+		out = append(out, variant{"W", i, q, fmt.Sprintf("list %d statements %d..%d", w.list, w.at, w.end-1)})
 	}
 	return out
+}
+
+// returnsValue reports whether s contains (outside function literals) a return.
+func returnsValue(s fl.Stmt) bool {
+	found := false
+	l := []fl.Stmt{s}
+	var visit func(list []fl.Stmt)
+	visit = func(list []fl.Stmt) {
+		for _, s := range list {
+			switch s := s.(type) {
+			case *fl.Return:
+				found = true // also a bare `return;`: a catch handler without fallback has to leave
+			case *fl.ReturnErr:
+				found = true
+			case *fl.If:
+				visit(s.Then)
+				visit(s.Else)
+			case *fl.While:
+				visit(s.Body)
+			case *fl.ForRange:
+				visit(s.Body)
+			case *fl.ForIn:
+				visit(s.Body)
+			case *fl.Block:
+				visit(s.Body)
+			case *fl.Match:
+				for _, a := range s.Arms {
+					visit(a.Body)
+				}
+			case *fl.Let:
+				if c, ok := s.Init.(*fl.Catch); ok {
+					visit(c.Handler)
+				}
+			case *fl.ExprStmt:
+				if c, ok := s.X.(*fl.Catch); ok {
+					visit(c.Handler)
+				}
+			}
+		}
+	}
+	visit(l)
+	return found
 }
 
 func hasFixedArrayIndex(p *fl.Program) bool {
